@@ -65,6 +65,7 @@ type SiteStat struct {
 }
 
 type Result struct {
+	Aborted     bool                `json:"aborted,omitempty"`
 	ID          string              `json:"id"`
 	Files       map[string]string   `json:"files"`
 	Sizes       map[string]int      `json:"sizes"`
@@ -463,6 +464,8 @@ func sameFiles(a, b map[string]string) (diff []string) {
 // judge compares a measured result with its reference. It returns the oracle and a description, or "".
 func judge(sc Scenario, ref, res Result) (oracle, what string, diff []string) {
 	switch {
+	case res.Aborted:
+		return "generation terminates", "the scenario's goroutine was ended before it finished", nil
 	case res.Missing:
 		return "generation terminates", "the simulation process died during this scenario: " + tailStr(res.Stderr, 1500), nil
 	case res.Panic != "":
@@ -846,7 +849,9 @@ func (e *Engine) Check(c *core.Ctx, filter func(Input) bool) (*core.Outcome, err
 			return nil, build.Toolf("scenario %s: %s", it.sc.ID, res.ToolTrouble)
 		}
 		ref := refBy[it.in.Name]
-		if o, w, d := judge(it.sc, ref, res); o != "" {
+		if res.Aborted || (res.Missing && len(res.Races) > 0) {
+			// the race detector ended this scenario: the report below is the violation, there is no outcome to judge
+		} else if o, w, d := judge(it.sc, ref, res); o != "" {
 			fails = append(fails, failure{it, res, o, w, d})
 		}
 		for _, rep := range res.Races {
@@ -1058,11 +1063,13 @@ func (e *Engine) replay(c *core.Ctx) (*core.Outcome, error) {
 	}
 	out := &core.Outcome{}
 	fmt.Printf("replay: schedule hash %s\n", res[0].SchedHash)
-	if o, w, d := judge(sc, refs[0], res[0]); o != "" {
+	if len(res[0].Races) > 0 && (res[0].Aborted || res[0].Missing) {
+		// the race detector ended the scenario: the reports below are the violation
+	} else if o, w, d := judge(sc, refs[0], res[0]); o != "" {
 		out.Violations = append(out.Violations, core.Violation{Key: c.Replay.Key, Oracle: o, What: w + " " + strings.Join(d, ","), Seed: c.Seed, Scenario: rs})
 	}
 	for _, rep := range res[0].Races {
-		out.Violations = append(out.Violations, core.Violation{Key: c.Replay.Key, Oracle: "no data race", What: clip(rep, 1500), Seed: c.Seed, Scenario: rs})
+		out.Violations = append(out.Violations, core.Violation{Key: "race " + raceKey(rep), Oracle: "no data race", What: clip(rep, 1500), Seed: c.Seed, Scenario: rs})
 	}
 	return out, nil
 }
